@@ -50,7 +50,7 @@ type c09AnyStep struct {
 
 type c09AnyCase struct {
 	Steps []c09AnyStep `json:"steps"`
-	Store string       `json:"store"` // reflect-map | node-map
+	Store string       `json:"store"` // reflect-map | node-map | node-hooked (container ac is served by the child hooks of the node)
 }
 
 func c09AnyValue(name string, step int) interface{} {
@@ -67,7 +67,7 @@ var c09Any = hx.Register(&hx.Check[c09AnyCase]{
 	Name: "c09-anydata-cases",
 	Rule: "a choice whose cases hold leaves (one with a when that reads its sibling), a container, anydata and anyxml nodes (one anydata as a shorthand case, one in a case of a nested choice); 2-6 upserts (or SetValue of a leaf) each writing some nodes of one case into a map-backed Reflect or Node store; after every step the container holds exactly the nodes written since the current case (and nested case) was selected, whatever kind of node held the data of the case that went; non-trivial = a switch away from a case whose anydata / anyxml node held data",
 	Gen: func(t *rapid.T) c09AnyCase {
-		c := c09AnyCase{Store: rapid.SampledFrom([]string{"reflect-map", "node-map"}).Draw(t, "store")}
+		c := c09AnyCase{Store: rapid.SampledFrom([]string{"reflect-map", "node-map", "node-hooked"}).Draw(t, "store")}
 		names := []string{"a", "b", "sh", "d", "d/i1", "d/i2"}
 		for i := 0; i < rapid.IntRange(2, 6).Draw(t, "steps"); i++ {
 			cs := rapid.SampledFrom(names).Draw(t, "case")
@@ -96,9 +96,43 @@ var c09Any = hx.Register(&hx.Check[c09AnyCase]{
 		}
 		o.Class("store=%s", c.Store)
 		store := map[string]interface{}{"c": map[string]interface{}{"before": "b0", "after": "a0"}}
+		// node-hooked: the container ac of case a does not live in the map the node reflects on but in a component of
+		// its own, served by the node's child hooks
+		var hookedAc map[string]interface{}
 		mk := func() node.Node {
-			if c.Store == "node-map" {
+			switch c.Store {
+			case "node-map":
 				return &nodeutil.Node{Object: store}
+			case "node-hooked":
+				cNode := func() node.Node {
+					return &nodeutil.Node{
+						Object: store["c"],
+						OnGetChild: func(n *nodeutil.Node, r node.ChildRequest) (node.Node, error) {
+							if r.Meta.Ident() == "ac" {
+								if hookedAc == nil {
+									return nil, nil
+								}
+								return &nodeutil.Node{Object: hookedAc}, nil
+							}
+							return n.DoGetChild(r)
+						},
+						OnNewChild: func(n *nodeutil.Node, r node.ChildRequest) (node.Node, error) {
+							if r.Meta.Ident() == "ac" {
+								hookedAc = map[string]interface{}{}
+								return &nodeutil.Node{Object: hookedAc}, nil
+							}
+							return n.DoNewChild(r)
+						},
+						OnDeleteChild: func(n *nodeutil.Node, r node.ChildRequest) error {
+							if r.Meta.Ident() == "ac" {
+								hookedAc = nil
+								return nil
+							}
+							return n.DoDeleteChild(r)
+						},
+					}
+				}
+				return &nodeutil.Node{Object: store, OnGetChild: func(n *nodeutil.Node, r node.ChildRequest) (node.Node, error) { return cNode(), nil }}
 			}
 			return nodeutil.ReflectChild(store)
 		}
